@@ -246,6 +246,13 @@ func runConcurrentWorld(s *stats, w0 *world, rng *rand.Rand) error {
 				default:
 					s.count("concurrent_calls_overlapping_the_update", 1)
 					s.count("concurrent_calls_overlapping_"+class+"_update", 1)
+					if len(ups) == 2 {
+						// three parties: the four quiescent views do not always bracket what an overlapping call
+						// can have seen (pd may refuse to restore an old rule between the views); such calls are
+						// exercised under the race detector and for panics, and counted, not judged
+						s.count("concurrent_calls_overlapping_two_updates_not_judged", 1)
+						continue
+					}
 					// every combination of "this update seen / not seen": reported only if refuted in all of them
 					var ts []*stats
 					for mask := 0; mask <= all; mask++ {
